@@ -2,8 +2,8 @@ import Wl2kVerif.Proofs.LzCanon
 /-
 C07 — interoperation with the canonical codec, decoder side: the CANONICAL `Decode()` (`Lzhuf.Canon.decodeBody`,
 transcribed from LZHUF.C: window position `N − F`, no size check inside a match) recovers every input from what
-the library's compressor emits.  (The other direction, `go_decodes_canon`, is not proved here: it needs the
-window invariant for the canonical driver loops and `Canon.CodeLenOK`.)
+the library's compressor emits.  (The other direction, `go_decodes_canon`, is in `Props/C07_reverse.lean`: the
+window invariant for the canonical driver loops, under `Canon.CodeLenOK`.)
 `bodyOf crc16 x` is the body of `compress crc16 x`: `Props.C06.compress_header` /
 `Lzhuf.compress_eq` give `compress crc16 x = [CRC-16] ++ le32 |x| ++ bodyOf crc16 x`.
 -/
